@@ -353,6 +353,8 @@ class Program:
         self._enum_aliases = aliases
 
     def enum_variants(self, name, vname=None, hint_file=None):
+        if name == "Ordering" and vname in ("Relaxed", "Release", "Acquire", "AcqRel", "SeqCst"):
+            return ["Relaxed", "Release", "Acquire", "AcqRel", "SeqCst"]      # std::sync::atomic::Ordering
         if name in ENUMS:
             return ENUMS[name]
         if not hasattr(self, "_enum_index"):
@@ -617,6 +619,10 @@ class Exec:
     # ---------------------------------------------------------- running functions
     def call_function(self, fn: Function, args, depth=0):
         if depth > self.ctx.max_depth:
+            if getattr(self.ctx, "uninterpreted_unknown_calls", False) and fn.ret not in ("()", "!", ""):
+                # dataflow obligations: cut deep call chains (accessor plumbing) with an uninterpreted result
+                self.ctx.env_used.add("depth-cut:" + fn.short)
+                return self.ctx.fresh_of_type(f"cut.{sanitize(fn.short)}.{len(self.choices)}_{self.steps}", fn.ret)
             raise Unsupported("call depth exceeded")
         self.ctx.encoded.add(fn.name)
         fr = Frame(fn, depth)
